@@ -5,7 +5,7 @@ Line-protocol front end of the connection machine (C11, C12).
   conn <consumers> <reconnect 0|1> <script> <event> <event> ...
 
   script : `-` or comma separated open results  o<d><c> (ok, drain mode d, close mode c; modes o r h) | e | h
-  event  : C            connect()
+  event  : C            connect()   (on a connection whose close() has returned: the object is used again, `reopen` first)
            F:p:<addr>   password response from addr      F:s:<m>:<t>  sensor data, m mixers, t thermostats
            F:f          frame for somebody else           F:b          frame with a bad checksum
            F:o:<addr>   frame for us from an address without a device class (get_device_entry raises; nothing observable)
@@ -13,7 +13,9 @@ Line-protocol front end of the connection machine (C11, C12).
            X            the stream breaks (EOF / exception)   XM  EOF in the middle of a frame
            D:<mode>     drain() of the current transport  W:<mode>     wait_closed() of the current transport
            Q:<n>        n requests queued                 P:d:<addr> | P:m:<i> | P:t:<i>  park a task
-           A:<ms>       advance virtual time              Z            close()
+           A:<ms>       advance virtual time              Z            close()   (after a close() that has returned: again)
+           F:v:<n>:<ver> ecoMAX sensor data whose frame-version table announces version <ver> for the first n kinds of
+                        `verKinds` (program version, check device)
            G:<addr>     a subscriber of the device-name event of addr blocks      R   every such subscriber returns
            K:<x|t|s>    which Connection class the harness drives (extension point / TcpConnection / SerialConnection
                         on a scripted network): nothing happens in the machine
@@ -22,7 +24,7 @@ Line-protocol front end of the connection machine (C11, C12).
 
 answer: one segment per event, joined by `|`:  <outputs>#<state>
   outputs  `;`-joined  <time>/<name>/<args>   in emission order
-  state    c,w,wa,p,k,l,r,s,rq,d,b,q,rs,t,z,zt,tie
+  state    c,w,wa,p,k,l,r,s,rq,d,b,q,rs,t,z,zt,tie,n   (n: live tasks by coroutine name, `name*count` joined by `+`)
 -/
 namespace PlumVerif.Conn
 
@@ -47,6 +49,9 @@ def parseHEv (w : String) : Option HEv :=
   | ["C"] => some (.ext .connect)
   | ["F", "p", a] => do let a ← a.toNat?; pure (.ext (.feed (.pw a)))
   | ["F", "s", m, t] => do let m ← m.toNat?; let t ← t.toNat?; pure (.ext (.feed (.sensors m t)))
+  | ["F", "v", n, v] => do
+    let n ← n.toNat?; let v ← v.toNat?
+    if n = 0 ∨ n > verKinds.length then none else pure (.ext (.feed (.versions ((verKinds.take n).map (fun k => (k, v))))))
   | ["F", "f"] => some (.ext (.feed .foreign))
   | ["F", "b"] => some (.ext (.feed .bad))
   | ["F", "u"] => some (.ext (.feed .undec))
@@ -92,7 +97,9 @@ def showState (s : St) (tie : Bool) : String :=
     | .wclosing t0 _ => ("w", s.now - t0)
     | .done t0 t1 => ("d", t1 - t0)
   s!"c={b2s s.connected},w={w},wa={wa},p={s.producers},k={s.consumers},l={lostTasks s},r={connTasks s}," ++
-  s!"s={setupTasks s},rq={reqTasks s},d={devOwnTasks s},b={subOwnTasks s},q={s.writeQ.length},rs={s.readQ.length},t={s.now},z={z},zt={zt},tie={b2s tie}"
+  s!"s={setupTasks s},rq={reqTasks s},d={devOwnTasks s},b={subOwnTasks s},q={s.writeQ.length},rs={s.readQ.length},t={s.now},z={z},zt={zt},tie={b2s tie}," ++
+  "n=" ++ (let l := (taskNames s).filter (fun p => p.2 != 0)
+           if l.isEmpty then "-" else String.intercalate "+" (l.map (fun p => s!"{p.1}*{p.2}")))
 
 def runH (s : St) : List HEv → List String
   | [] => []
